@@ -356,6 +356,17 @@ impl<T> ExactSizeIterator for LocalPinnedPoolIterator<'_, T> {
 
 impl<T> FusedIterator for LocalPinnedPoolIterator<'_, T> {}
 
+#[cfg(folo_verif)]
+impl<T> LocalPinnedPool<T>
+where
+    T: 'static, {
+    /// Verification hook: read-only view of the pool's bookkeeping.
+    #[must_use]
+    pub fn verif_probe(&self) -> crate::verif::PoolProbe {
+        self.inner.borrow().verif_probe()
+    }
+}
+
 #[cfg(test)]
 #[cfg_attr(coverage_nightly, coverage(off))]
 mod tests {
